@@ -23,7 +23,7 @@ B = h.bounds(
 BOUNDS = dict(vars(B), meaning="histories of 1..RUNS runs of (ToCSV, MakeFilename, Write, RenderLaTeX, "
               "Write, LaTeXToPDF, PDFToPNG) over PLOTS plots; per run: data kept/changed, template "
               "kept/changed, any subset of {csv, tex, pdf, png} deleted before the run (4 bits); Write "
-              "settings default / overwrite / existing_unchanged; converter overwrite on/off; "
+              "settings default / overwrite / existing_unchanged / (default, existing_unchanged); converter overwrite on/off; "
               "MakeFilename prefix/suffix/overwrite matrix")
 FUNCTIONS = ["lena.output.write.Write.run/_make_filename/_write_data", "MakeFilename.__call__",
              "ToCSV.run", "RenderLaTeX.run", "LaTeXToPDF.run", "PDFToPNG.run", "pdf_to_png._run_command"]
@@ -63,9 +63,13 @@ def chain(env, wmode, conv_over):
         kw = {"overwrite": True}
     elif wmode == 2:
         kw = {"existing_unchanged": True}
+    kw2 = dict(kw)
+    if wmode == 3:
+        # data files are checked, the rendered template is assumed unchanged
+        kw2 = {"existing_unchanged": True}
     return Sequence(
         ToCSV(), MakeFilename("plot{{plot}}"), Write("out", verbose=False, **kw),
-        RenderLaTeX("tpl.tex", environment=env), Write("out", verbose=False, **kw),
+        RenderLaTeX("tpl.tex", environment=env), Write("out", verbose=False, **kw2),
         LaTeXToPDF(overwrite=conv_over, verbose=0), PDFToPNG(overwrite=conv_over, verbose=False),
     )
 
@@ -81,13 +85,13 @@ def check_history(nruns: int, nplots: int, cd0: bool, ct0: bool, del0: int, cd1:
     pre: 1 <= nruns <= B.RUNS
     pre: 1 <= nplots <= B.PLOTS
     pre: 0 <= del0 <= 15 and 0 <= del1 <= 15
-    pre: 0 <= wmode <= 2
+    pre: 0 <= wmode <= 3
     pre: h.in_shard(del0)
     post: _
     """
     nruns = h.concrete(nruns, 1, B.RUNS)
     nplots = h.concrete(nplots, 1, B.PLOTS)
-    wmode = h.concrete(wmode, 0, 2)
+    wmode = h.concrete(wmode, 0, 3)
     co = True if conv_over else False
     steps = [(False, False, 0)]
     if nruns >= 2:
@@ -139,20 +143,26 @@ def check_history(nruns: int, nplots: int, cd0: bool, ct0: bool, del0: int, cd1:
                 # template, pdf built from that tex and csv, png from that pdf
                 want_csv = expected_csv(version, p)
                 want_tex = "TEX[template-v%d|CSV=%s]" % (tplv, csv)
+                if wmode == 3:
+                    # the .tex on disk is trusted as it is (existing_unchanged):
+                    # what is derived from it must follow the current data
+                    if tex not in fs.files:
+                        return h.ok(False)
+                    want_tex = fs.files[tex]["content"]
                 want_pdf = "PDF(" + want_tex + "|" + want_csv + ")"
                 want_png = "PNG(" + want_pdf + ")"
                 for path, want in ((csv, want_csv), (tex, want_tex), (pdf, want_pdf), (png, want_png)):
                     if path not in fs.files or fs.files[path]["content"] != want:
                         return h.ok(False)
             # a run whose inputs are unchanged rewrites nothing, converts nothing
-            if r > 0 and not cd and not ct and not deleted and wmode != 1 and not co:
+            if r > 0 and not cd and (not ct or wmode == 3) and not deleted and wmode != 1 and not co:
                 if writes or launched:
                     return h.ok(False)
                 for p in range(nplots):
                     if out[p][1].get("output", {}).get("changed") is not False:
                         return h.ok(False)
             # output.changed is true downstream whenever something was rewritten
-            if (r == 0 or cd or ct or deleted) and wmode != 2:
+            if (r == 0 or cd or deleted or (ct and wmode != 3)) and wmode != 2:
                 for p in range(nplots):
                     if out[p][1].get("output", {}).get("changed") is not True:
                         return h.ok(False)
@@ -218,7 +228,8 @@ CONDITIONS = [
     dict(fn="check_history", shards=(16, 16), budget=(90, 1500),
          smoke=["check_history(2, 1, False, False, 0, False, False, 0, 0, False)",
                 "check_history(2, 1, True, False, 4, False, False, 0, 0, False)",
-                "check_history(2, 1, False, False, 0, False, False, 0, 1, True)"]),
+                "check_history(2, 1, False, False, 0, False, False, 0, 1, True)",
+                "check_history(2, 1, True, False, 0, False, False, 0, 3, False)", "check_history(2, 1, False, True, 0, False, False, 0, 3, False)"]),
     dict(fn="check_make_filename", budget=(70, 600),
          smoke=["check_make_filename(True, 0, 1, 1, False, False)", "check_make_filename(True, 3, 2, 0, False, True)",
                 "check_make_filename(False, 2, 1, 2, True, False)", "check_make_filename(True, 1, 1, 0, True, True)"]),
